@@ -39,6 +39,7 @@ import (
 	str "github.com/echovault/sugardb/internal/modules/string"
 	"github.com/echovault/sugardb/internal/raft"
 	"github.com/echovault/sugardb/internal/snapshot"
+	"github.com/echovault/sugardb/verifhook"
 	"io"
 	"log"
 	"net"
@@ -337,12 +338,14 @@ func NewSugarDB(options ...func(sugarDB *SugarDB)) (*SugarDB, error) {
 			for {
 				select {
 				case <-ticker.C:
+					verifhook.Yield("ttl.tick")
 					// Run key eviction for each database that has volatile keys.
 					wg := sync.WaitGroup{}
 					for database, _ := range sugarDB.keysWithExpiry.keys {
 						wg.Add(1)
 						ctx := context.WithValue(context.Background(), "Database", database)
 						go func(ctx context.Context, wg *sync.WaitGroup) {
+							verifhook.Yield("ttl.evict")
 							if err := sugarDB.evictKeysWithExpiredTTL(ctx); err != nil {
 								log.Printf("evict with ttl: %v\n", err)
 							}
@@ -510,6 +513,7 @@ func (server *SugarDB) handleConnection(conn net.Conn) {
 
 	for {
 		message, err := internal.ReadMessage(r)
+		verifhook.Yield("conn.read")
 
 		if err != nil && errors.Is(err, io.EOF) {
 			// Connection closed
@@ -582,6 +586,7 @@ func (server *SugarDB) takeSnapshot() error {
 	}
 
 	go func() {
+		verifhook.Yield("snapshot.start")
 		if server.isInCluster() {
 			// Handle snapshot in cluster mode
 			if err := server.raft.TakeSnapshot(); err != nil {
